@@ -80,6 +80,11 @@ type c06run struct {
 	seen     map[uint64]struct{}
 	ctr      int
 	keep     int
+	// fresh installs a new device object (hook configuration only). After a call during which reads took simulated
+	// time, a tree with a deadline of its own may have given the read up and left a goroutine behind that still
+	// holds the old device: the next case gets a device of its own, so that such a reader cannot disturb it.
+	fresh func() *dev.Dev
+	taint bool
 }
 
 // slowVals: simulated milliseconds a read of the device may take (just past plausible timeouts).
@@ -129,6 +134,12 @@ func (r *c06run) judge(c *C06Case, o *plan.Outcome, relaxFam bool) (class, detai
 	if hasErr && dn < need {
 		return "", "" // fail-closed, as required
 	}
+	if d.SlowMs > 0 {
+		// reads took simulated seconds to hours: a tree with a deadline of its own may give up - with an error and
+		// no mnemonic - whatever else the source did in the meantime
+		r.res.Relaxed["iv_gave_up_on_a_slow_source"]++
+		return "", ""
+	}
 	if hasErr { // the error arrived with or after the byte that completed the buffer
 		first := d.Log[d.FirstErr]
 		if before := d.DAtErr - first.Gave; before < need && d.DAtErr >= need {
@@ -143,11 +154,6 @@ func (r *c06run) judge(c *C06Case, o *plan.Outcome, relaxFam bool) (class, detai
 		r.res.Relaxed["ii_gave_up_after_stall"]++
 		return "", ""
 	}
-	if d.SlowMs > 0 {
-		// reads took simulated seconds to hours: a tree with a deadline of its own may give up - with an error and no mnemonic
-		r.res.Relaxed["iv_gave_up_on_a_slow_source"]++
-		return "", ""
-	}
 	if d.Pos >= need {
 		return "spurious", fmt.Sprintf("error %s although the source delivered %d >= %d bytes without any fault", o.Err, d.Pos, need)
 	}
@@ -156,6 +162,11 @@ func (r *c06run) judge(c *C06Case, o *plan.Outcome, relaxFam bool) (class, detai
 
 func (r *c06run) one(c C06Case) {
 	res := r.res
+	if r.taint && r.fresh != nil {
+		r.d = r.fresh()
+		res.Probes["fresh_device_after_a_slow_case"]++
+	}
+	r.taint = false
 	r.d.Arm(&c.Dev)
 	var o plan.Outcome
 	func() {
@@ -227,6 +238,7 @@ func (r *c06run) one(c C06Case) {
 	}
 	if d.SlowMs > 0 {
 		res.Fired["slow-read (simulated clock)"]++
+		r.taint = true
 	}
 	if d.SlowMs >= 60000 {
 		res.Probes["a_read_took_a_simulated_minute_or_more"]++
@@ -304,9 +316,9 @@ func streamFor(rng *plan.Rand, i int) plan.Dev {
 
 // RunC06 enumerates (or executes) the cases of a job against the device that
 // has been installed as the source.
-func RunC06(job *C06Job, d *dev.Dev) *C06Result {
+func RunC06(job *C06Job, d *dev.Dev, fresh func() *dev.Dev) *C06Result {
 	res := &C06Result{Fired: map[string]int{}, Probes: map[string]int{}, Relaxed: map[string]int{}, ByFamily: map[string]int{}, ByLang: map[string]int{}, ByN: map[string]int{}}
-	r := &c06run{d: d, res: res, seen: map[uint64]struct{}{}, keep: job.Keep}
+	r := &c06run{d: d, res: res, seen: map[uint64]struct{}{}, keep: job.Keep, fresh: fresh}
 	rng := plan.NewRand(job.Seed)
 	ctr := 0
 	emit := func(n int, fam string, script []plan.DevStep) {
